@@ -226,4 +226,102 @@ theorem merge_holds (lay : Lay) (a b : Part) (xs ys : List Id) (ha : a.Holds xs)
       rw [List.length_take]; have := hb.len_le_cap; simp only [Vec.cap] at this; omega
     simp [Vec.cap, e1, e2]
 
+/-! ## partition -/
+
+theorem decompose2 (ys : List Id) (i j : Nat) (hij : i < j) (hj : j < ys.length) :
+    ∃ A a B b C, ys = A ++ a :: (B ++ b :: C) ∧ A.length = i ∧ B.length = j - i - 1 ∧ ys[i]'(by omega) = a ∧ ys[j] = b := by
+  refine ⟨ys.take i, ys[i]'(by omega), (ys.drop (i + 1)).take (j - i - 1), ys[j], ys.drop (j + 1), ?_, by simp; omega, by simp; omega, rfl, rfl⟩
+  have h1 : ys = ys.take i ++ ys[i]'(by omega) :: ys.drop (i + 1) := by simp
+  have hlt : j - i - 1 < (ys.drop (i + 1)).length := by simp; omega
+  have h2 : ys.drop (i + 1) = (ys.drop (i + 1)).take (j - i - 1) ++ (ys.drop (i + 1))[j - i - 1] :: (ys.drop (i + 1)).drop (j - i - 1 + 1) :=
+    (List.take_append_drop (j - i - 1) (ys.drop (i + 1))).symm.trans (by rw [List.drop_eq_getElem_cons hlt])
+  have e1 : (ys.drop (i + 1))[j - i - 1] = ys[j] := by simp; congr 1; omega
+  have e2 : (ys.drop (i + 1)).drop (j - i - 1 + 1) = ys.drop (j + 1) := by rw [List.drop_drop]; congr 1; omega
+  rw [e1, e2] at h2
+  conv => lhs; rw [h1, h2]
+
+theorem swap_perm (ys : List Id) (i j : Nat) (hij : i < j) (hj : j < ys.length) :
+    ((ys.set i ys[j]).set j (ys[i]'(by omega))).Perm ys := by
+  obtain ⟨A, a, B, b, C, rfl, hA, hB, ha, hb⟩ := decompose2 ys i j hij hj
+  rw [ha, hb]
+  have hi' : i = A.length := hA.symm
+  have hj' : j = A.length + 1 + B.length := by omega
+  subst hi'
+  rw [hj']
+  have e1 : (A ++ a :: (B ++ b :: C)).set A.length b = A ++ b :: (B ++ b :: C) := by simp
+  rw [e1]
+  have e2 : (A ++ b :: (B ++ b :: C)).set (A.length + 1 + B.length) a = A ++ b :: (B ++ a :: C) := by
+    rw [List.set_append_right _ _ (by omega)]
+    have : A.length + 1 + B.length - A.length = B.length + 1 := by omega
+    rw [this, List.set_cons_succ, List.set_append_right _ _ (by omega)]
+    simp
+  rw [e2]
+  refine List.Perm.append_left _ ?_
+  -- b :: (B ++ a :: C) ~ a :: (B ++ b :: C)
+  refine (List.Perm.cons b List.perm_middle).trans ?_
+  refine (List.Perm.swap a b _).trans ?_
+  exact List.Perm.cons a List.perm_middle.symm
+
+theorem swapSlots_seg {v : Vec} {ys : List Id} {i j : Nat} (hs : v.slots = I ys) (hij : i < j) (hj : j < ys.length) :
+    swapSlots v i j = .ok { v with slots := I ((ys.set i ys[j]).set j (ys[i]'(by omega))) } := by
+  unfold swapSlots
+  have hi : i < ys.length := by omega
+  have h1 : v.slots[i]? = some (Slot.init (ys[i])) := by rw [hs]; simp [I, hi]
+  have h2 : v.slots[j]? = some (Slot.init (ys[j])) := by rw [hs]; simp [I, hj]
+  rw [h1, h2]
+  simp only
+  congr 2
+  rw [hs]; simp [I, List.map_set]
+
+/-- `partition_in_place` only swaps values: the buffer stays full of the same ids, the count stays within bounds -/
+theorem partitionLoop_perm (fuel : Nat) :
+    ∀ (v : Vec) (f b tc : Nat) (seek : Seek) (o : List Outcome) (ys : List Id),
+      v.slots = I ys → fuel = b - f → b ≤ ys.length → f ≤ b → (∀ h, seek = .lastTrue h → h < f) →
+      tc ≤ f + (ys.length - b) →
+      ∃ v' res o' ys', partitionLoop fuel v f b tc seek o = .ok (v', res, o') ∧ v'.slots = I ys' ∧ ys'.Perm ys ∧
+        v'.len = v.len ∧ v'.dropLog = v.dropLog ∧ v'.escaped = v.escaped ∧ (∀ t, res = some t → t ≤ ys.length) := by
+  induction fuel with
+  | zero =>
+    intro v f b tc seek o ys hs hf hb hfb _ htc
+    exact ⟨v, some tc, o, ys, by simp [partitionLoop], hs, List.Perm.refl _, rfl, rfl, rfl, by intro t ht; cases ht; omega⟩
+  | succ fuel ih =>
+    intro v f b tc seek o ys hs hf hb hfb hhead htc
+    have hflt : f < ys.length := by omega
+    have hb1 : b - 1 < ys.length := by omega
+    have hpf : peek v f = .ok (ys[f]) := by
+      unfold peek; rw [hs]; simp [I, hflt]
+    have hpb : peek v (b - 1) = .ok (ys[b - 1]) := by
+      unfold peek; rw [hs]; simp [I, hb1]
+    cases seek with
+    | firstFalse =>
+      simp only [partitionLoop, hpf]
+      match o with
+      | [] => exact ⟨v, none, [], ys, rfl, hs, List.Perm.refl _, rfl, rfl, rfl, by intro t ht; cases ht⟩
+      | .panic :: o => exact ⟨v, none, o, ys, rfl, hs, List.Perm.refl _, rfl, rfl, rfl, by intro t ht; cases ht⟩
+      | .ret p :: o =>
+        by_cases hp : p ≠ 0
+        · simp only [hp, ne_eq, not_false_eq_true, ↓reduceIte]
+          exact ih v (f + 1) b (tc + 1) .firstFalse o ys hs (by omega) hb (by omega) (by intro h hh; cases hh) (by omega)
+        · simp only [hp, ↓reduceIte]
+          exact ih v (f + 1) b tc (.lastTrue f) o ys hs (by omega) hb (by omega) (by intro h hh; cases hh; omega) (by omega)
+    | lastTrue head =>
+      have hh := hhead head rfl
+      simp only [partitionLoop, hpb]
+      match o with
+      | [] => exact ⟨v, none, [], ys, rfl, hs, List.Perm.refl _, rfl, rfl, rfl, by intro t ht; cases ht⟩
+      | .panic :: o => exact ⟨v, none, o, ys, rfl, hs, List.Perm.refl _, rfl, rfl, rfl, by intro t ht; cases ht⟩
+      | .ret p :: o =>
+        by_cases hp : p ≠ 0
+        · simp only [hp, ne_eq, not_false_eq_true, ↓reduceIte]
+          rw [swapSlots_seg hs (show head < b - 1 by omega) hb1]
+          simp only
+          have hsw := swap_perm ys head (b - 1) (by omega) hb1
+          obtain ⟨v', res, o', ys', h1, h2, h3, h4, h5, h6, h7⟩ :=
+            ih { v with slots := I ((ys.set head ys[b - 1]).set (b - 1) (ys[head]'(by omega))) } f (b - 1) (tc + 1) .firstFalse o
+              ((ys.set head ys[b - 1]).set (b - 1) (ys[head]'(by omega))) rfl (by omega) (by simp; omega) (by omega)
+              (by intro h hh; cases hh) (by simp; omega)
+          exact ⟨v', res, o', ys', h1, h2, h3.trans hsw, h4, h5, h6, by intro t ht; have := h7 t ht; simpa using this⟩
+        · simp only [hp, ↓reduceIte]
+          exact ih v f (b - 1) tc (.lastTrue head) o ys hs (by omega) (by omega) (by omega) (by intro h hh'; cases hh'; exact hh) (by omega)
+
 end Coll
